@@ -504,6 +504,6 @@ func TestConcurrent(t *testing.T) {
 	pbt.Main(t, pbt.Prop[ConcCase]{
 		ID: "C11", Name: "concurrent",
 		Rule: "free-running mode (real parallelism, -race): 1..6 writer goroutines record on all metric kinds in tagged and sub scopes of one test scope while 1..6 goroutines take snapshots; every concurrently observed counter value lies between 0 and the final total, the final snapshot shows the exact total; race detector on. Non-trivial: >=2 writers.",
-		Gen:  genConc, Run: runConc,
+		Gen:  genConc, Run: runConc, Retries: 30,
 	})
 }
